@@ -406,11 +406,13 @@ def main(tier, seed):
         mc_and_replay(rep, KINDS_22, 4, seed)
         traces(rep, 4000, 6, seed)
         c01_lexer.run(rep, 4, seed)
+        c01_lexer.traces(rep, 1500, seed)
     else:
         mc_and_replay(rep, KINDS_FULL, 4, seed)
         mc_and_replay(rep, KINDS_16, 5, seed)
         mc_and_replay(rep, KINDS_10, 6, seed)
         traces(rep, 120000, 9, seed)
         c01_lexer.run(rep, 5, seed)
+        c01_lexer.traces(rep, 40000, seed)
     rep.exhaustive = True
     return rep.finish()
